@@ -70,7 +70,8 @@ func (r *OrderByRow) aggregate(it *collections.FloatArrayIterator) *aggResult {
 			max = val
 			sum = val
 			mean = val
-			value = val
+			// sum of squared deviations of one value
+			value = 0
 			continue
 		}
 
